@@ -404,7 +404,19 @@ func runC10(args []string) error {
 		return res
 	}
 	if worker {
-		return drv.IsoWorker(*f.Out, len(cases), runOne)
+		// a server that wedges costs a watchdog period per wait: after five cases that hung the rest is skipped
+		// (five replays are enough to report; the run stays within minutes)
+		hung := 0
+		return drv.IsoWorker(*f.Out, len(cases), func(i int) drv.IsoResult {
+			if hung >= 5 {
+				return drv.IsoResult{Stats: map[string]int{"skipped_after_five_hangs": 1}}
+			}
+			r := runOne(i)
+			if strings.Contains(r.Problem, "HANG") {
+				hung++
+			}
+			return r
+		})
 	}
 	if err := drv.WriteJSON(*f.Out+"/cases.json", cases); err != nil {
 		return err
